@@ -127,9 +127,18 @@ fn main() {
 """,
     "mixed_width_compare": """import "std/io";
 fn main() {
-    let a: i32 = 5;
+    let a: i32 = -5;
     let b: i64 = 7;
+    let c: u32 = 4000000000;
+    let d: i64 = -1;
+    let e: i64 = -5;
     io::Println(a < b);
+    io::Println(b < a);
+    io::Println(c > d);
+    io::Println(d >= c);
+    io::Println(a == d);
+    io::Println(a == e);
+    io::Println(e != a);
 }
 """,
     "wasm_memory_not_grown": """import "std/io";
